@@ -237,19 +237,21 @@ class CFG:
         raise NotImplementedError
 
 
-def must_pass_through(cfg, start, is_target, is_marker, start_after=True, track=None):
+def must_pass_through(cfg, start, is_target, is_marker, start_after=True, track=None, nonempty=None):
     """True iff every CFG path from element `start` (block,pos) to any element satisfying
     is_target(node) (or to the exit block when is_target is None) contains an element satisfying
     is_marker(node) strictly before the target. Returns (ok, witness_target_node).
     track: optional declaration id of a scalar local whose constant value is followed along each path
     (`v = <integer literal>` sets it, any other write forgets it); at a `switch (v)` with a known value
     only the matching case successor is taken. This removes the infeasible paths of emulated returns
-    (`retAddr = k; goto call; ... switch (retAddr) { case k: goto ret_k; }`)."""
+    (`retAddr = k; goto call; ... switch (retAddr) { case k: goto ret_k; }`).
+    nonempty: optional predicate on a range-for node; such a loop is assumed to execute at least once
+    (on first arrival at its condition only the body edge is taken)."""
     sb, sp = start
     seen = set()
-    work = [(sb, sp + 1 if start_after else sp, None)]
+    work = [(sb, sp + 1 if start_after else sp, None, frozenset())]
     while work:
-        b, p, val = work.pop()
+        b, p, val, entered = work.pop()
         blk = cfg.blocks[b]
         els = blk['el']
         blocked = False
@@ -291,13 +293,18 @@ def must_pass_through(cfg, start, is_target, is_marker, start_after=True, track=
                     else:
                         default.append(s_)
                 succs = chosen or default
+        if nonempty is not None and blk.get('termk') == 'CXXForRangeStmt' and len(blk['succ']) == 2 and b not in entered:
+            t = cfg.nodes.get(blk.get('term'))
+            if t is not None and nonempty(t) and blk['succ'][0] is not None:
+                succs = [blk['succ'][0]]
+                entered = entered | {b}
         for s in succs:
             if s == cfg.exit and is_target is None:
                 return False, None
-            key = (s, val)
+            key = (s, val, entered)
             if key not in seen:
                 seen.add(key)
-                work.append((s, 0, val))
+                work.append((s, 0, val, entered))
     return True, None
 
 
